@@ -5,7 +5,7 @@
 //! caught per case, an abort / stack overflow kills the batch child and is
 //! attributed to the case whose index is in the shared stage marker; the alarm
 //! is re-armed per case (10 s for inputs of a few KiB, i.e. > 10^4 times the
-//! normal cost; a timeout is re-run alone with 20 s before it is reported).
+//! normal cost; a timeout is re-run alone with 180 s before it is reported).
 use crate::allocmon;
 use crate::c34::{RtCase, apply_ops_view, make_value};
 use crate::child::{self, ChildEnd, Shared};
@@ -436,8 +436,10 @@ impl MalRunner<'_> {
             return;
         }
         if class == "timeout" {
-            // 1.4: re-run the single input alone, with twice the time.
-            let (_, again) = self.one(c, 20);
+            // 1.4: re-run the single input alone with a far longer alarm: on a loaded
+            // machine a reader that merely allocates and clears what the header
+            // announces can exceed the per-case alarm without hanging.
+            let (_, again) = self.one(c, 180);
             if again != "timeout" {
                 self.rep.count("timeout_not_reproduced_alone");
                 return;
